@@ -23,6 +23,7 @@ RULE = (
     'projection and acquisition; with x64 off: projection on float32 landscapes only. Samples whose reference pixel '
     'changes under a 1e-9 (x64) / 1e-4 (float32) perturbation of w are excluded from the pixel verdict (counted). '
     'non-trivial = >= 2 detectors, >= 2 samples, psi != 0 and not all samples in one pixel.'
+    ' Also: a ramp sky identifies the pixel read by EVERY sample, which must be one of the pixels overlapping a disc of radius 3 delta around the reference direction (healpy.query_disc; 26 perturbations for long scans); samples that send a detector direction exactly onto a pole; scans of 65536-131072 samples (one detector, angles derived from the seed, vectorised reference); projection, P.T @ P and its reduction built under jax.jit; an earlier scan of the same length projected and dropped before the scan under test.'
 )
 ASSUMPTIONS = [
     'healpy (C library) is the reference for HEALPix ring pixelisation',
